@@ -4,6 +4,7 @@
 # its meta.json "expect" list.  Applies each patch to /repo and undoes it straight afterwards.
 cd /verif || exit 2
 REPO=${VERIF_REPO:-/repo}
+VERIF_EVIDENCE_DIR=$(mktemp -d ${TMPDIR:-/tmp}/o1722v-ev-XXXXXX); export VERIF_EVIDENCE_DIR
 fail=0
 for p in ${VARIANTS:-selftest/benign/*.diff}; do
   git -C $REPO apply "$PWD/$p" || { echo "cannot apply $p"; fail=1; continue; }
@@ -14,6 +15,6 @@ for p in ${VARIANTS:-selftest/benign/*.diff}; do
   git -C $REPO checkout -- .
   git -C $REPO clean -fdq -- src include examples
 done
-rm -f ${TMPDIR:-/tmp}/selftest.$$
+rm -f ${TMPDIR:-/tmp}/selftest.$$; rm -rf "$VERIF_EVIDENCE_DIR"
 [ $fail -eq 0 ] && echo "benign variants: all checks silent"
 exit $fail
